@@ -258,6 +258,13 @@ func (e *Engine) substr(s *StrV, lo, hi *Term) *StrV {
 	if n.IsConst() && int(n.val) < mx {
 		mx = int(n.val)
 	}
+	if !n.IsConst() && umax(n) > uint64(mx) {
+		// the bounds obligation of the slice expression has been recorded and
+		// assumed: 0 <= lo <= hi <= len <= Max, so n = min(n, Max) on every
+		// continuing path; writing it so lets later comparisons fold
+		m := c64(int64(mx))
+		n = Ite(Ult(m, n), m, n)
+	}
 	if lo.IsConst() && lo.val == 0 {
 		return &StrV{Len: n, Data: s.Data, Max: mx}
 	}
